@@ -254,3 +254,74 @@ example : (match mergeAndSpillPost (some ⟨2, 1, 100⟩) 100
     | .error _ => false) = true := by decide
 
 end OdcGeo.C06
+
+namespace OdcGeo.C06
+variable {α : Type}
+
+/-! ### the writer's upper limits: `max_part`, `max_write_sz` -/
+
+/-- strictly increasing numbers within `[a, b]`: at most `b + 1 - a` of them -/
+theorem increasing_ids_count (ps : List (Part α)) (a b : Nat) (hinc : ps.Pairwise (fun x y => x.id < y.id))
+    (hr : ∀ p ∈ ps, a ≤ p.id ∧ p.id ≤ b) : ps.length ≤ b + 1 - a := by
+  induction ps generalizing a with
+  | nil => simp
+  | cons p ps ih =>
+    have hp := hr p (by simp)
+    rw [List.pairwise_cons] at hinc
+    have := ih (p.id + 1) hinc.2 (fun q hq => ⟨hinc.1 q hq, (hr q (by simp [hq])).2⟩)
+    simp only [List.length_cons]
+    omega
+
+/-- **What the code guarantees about the number and the size of parts**: under the capacity hypothesis of `main`
+there are at most `max_part - min_part + 1` parts (they carry distinct numbers of the writer's range), hence at least one
+part holds `1 / (max_part - min_part + 1)` of the object or more: no `max_write_sz` below that can be honoured by any
+assembly. -/
+theorem parts_count_and_largest_part (fp : List (Part α)) (W : Writer)
+    (hinc : fp.Pairwise (fun a b => a.id < b.id)) (hr : ∀ p ∈ fp, W.minPart ≤ p.id ∧ p.id ≤ W.maxPart) :
+    fp.length ≤ W.maxPart + 1 - W.minPart ∧
+    (fp ≠ [] → ∃ p ∈ fp, (partsBytes fp).length ≤ p.data.length * (W.maxPart + 1 - W.minPart)) := by
+  have hlen := increasing_ids_count fp W.minPart W.maxPart hinc hr
+  refine ⟨hlen, ?_⟩
+  intro hne
+  -- a part of maximal size
+  have hmax : ∀ (l : List (Part α)), l ≠ [] → ∃ p ∈ l, (partsBytes l).length ≤ p.data.length * l.length := by
+    intro l
+    induction l with
+    | nil => intro h; exact absurd rfl h
+    | cons q qs ih =>
+      intro _
+      by_cases hq : qs = []
+      · subst hq; exact ⟨q, by simp, by simp⟩
+      · obtain ⟨p, hp, hle⟩ := ih hq
+        by_cases hc : p.data.length ≤ q.data.length
+        · refine ⟨q, by simp, ?_⟩
+          simp only [partsBytes_cons, List.length_append, List.length_cons]
+          have : p.data.length * qs.length ≤ q.data.length * qs.length := Nat.mul_le_mul_right _ hc
+          rw [Nat.mul_add]; omega
+        · refine ⟨p, by simp [hp], ?_⟩
+          simp only [partsBytes_cons, List.length_append, List.length_cons]
+          rw [Nat.mul_add]; omega
+  obtain ⟨p, hp, hle⟩ := hmax fp hne
+  exact ⟨p, hp, le_trans hle (Nat.mul_le_mul_left _ hlen)⟩
+
+/-- **`max_write_sz` is never read: a chunk is never split.**  `spill_sz = 8`, four write credits per partition, a
+40-byte chunk: it goes out as ONE part of 32 bytes (`maybe_write` spills everything it may), although three more
+part numbers of the partition stay unused — a writer with `max_write_sz = 16` gets a part twice its limit.  Replayed on
+the real code. -/
+theorem max_write_sz_not_enforced_cex :
+    (match run (α := Nat) ⟨some ⟨4, 1, 100⟩, 8, 4, true⟩ (.node (.leaf [(List.replicate 40 7, 0)]) (.leaf [(List.replicate 8 7, 1)]))
+        none none with
+     | .ok (.written _ fp, _, _) => fp.map (fun p => (p.id, p.data.length)) == [(1, 4), (2, 32), (3, 12)]
+     | _ => false) = true := by decide
+
+/-- **`max_part` is only asserted by `flush_rhs`, not by `maybe_write`**: when the partitions need more part numbers
+than the writer has (`min_part + 1 + #partitions * writes_per_chunk > max_part + 1`, excluded by `main`'s capacity
+hypothesis) a run can SUCCEED with part numbers above `max_part`: writer range 1..3, two partitions × three credits:
+parts 5 and 6 are written and finalised.  Replayed on the real code. -/
+theorem max_part_unchecked_cex :
+    (match run (α := Nat) ⟨some ⟨2, 1, 3⟩, 2, 3, true⟩ (.node (.leaf [(List.replicate 8 7, 0)]) (.leaf [(List.replicate 8 7, 1)]))
+        none none with
+     | .ok (.written _ fp, _, _) => fp.map (·.id) == [1, 2, 3, 5, 6]
+     | _ => false) = true := by decide
+
+end OdcGeo.C06
